@@ -114,6 +114,18 @@ def sites(prog):
                 yield ("wrong-return-type", "result of %s" % fn["name"], f)
 
 
+def _changed_in_exit_value(a, b, inside=False):
+    """Is the part of b that differs from a inside the value of an exit `c => v`?"""
+    if a == b:
+        return False
+    if isinstance(a, dict) and isinstance(b, dict) and a.get("e") == b.get("e") and set(a) == set(b):
+        diff = [k for k in a if a[k] != b[k]]
+        return any(_changed_in_exit_value(a[k], b[k], inside or (a.get("e") == "exit" and k == "v")) for k in diff)
+    if isinstance(a, list) and isinstance(b, list) and len(a) == len(b):
+        return any(_changed_in_exit_value(x, y, inside) for x, y in zip(a, b) if x != y)
+    return inside
+
+
 def mutants(prog, seed, cap=None):
     all_sites = list(sites(prog))
     rnd = random.Random(seed)
@@ -136,6 +148,6 @@ def mutants(prog, seed, cap=None):
         except Exception:
             continue
         m["id"] = "%s~m%d" % (prog["id"], n)
-        m["mutation"] = {"catalogue": cat, "site": desc, "base": prog["id"]}
+        m["mutation"] = {"catalogue": cat, "site": desc, "base": prog["id"], "in_exit_value": _changed_in_exit_value(prog, m)}
         out.append(m)
     return out
